@@ -1,0 +1,54 @@
+//go:build verif
+
+package proxy
+
+import (
+	"time"
+)
+
+// Hooks for the verification harness (build tag `verif`); not compiled otherwise.
+// Nothing here changes the behaviour of existing code paths: the setters write the package-level
+// timing variables the worker already reads, the others call existing unexported methods.
+
+// VerifTimings returns statusCheckInterval, waitResponseTimeout, startErrTimeout.
+func VerifTimings() (time.Duration, time.Duration, time.Duration) {
+	return statusCheckInterval, waitResponseTimeout, startErrTimeout
+}
+
+// VerifSetTimings overwrites the three package-level timing variables.
+func VerifSetTimings(check, wait, startErr time.Duration) {
+	statusCheckInterval, waitResponseTimeout, startErrTimeout = check, wait, startErr
+}
+
+// VerifWrapper returns the wrapper currently registered under name.
+func (pm *Manager) VerifWrapper(name string) (*Wrapper, bool) {
+	pm.mu.RLock()
+	defer pm.mu.RUnlock()
+	pw, ok := pm.proxies[name]
+	return pw, ok
+}
+
+// VerifKick wakes the wrapper's worker for one loop iteration, exactly as a health notification
+// does, but blocking until the worker has taken it (so the worker was parked in its select).
+// Returns false when the wrapper is stopped (channel closed).
+func (pw *Wrapper) VerifKick() (ok bool) {
+	defer func() {
+		if recover() != nil {
+			ok = false
+		}
+	}()
+	pw.healthNotifyCh <- struct{}{}
+	return true
+}
+
+// VerifHealth calls the callback the health monitor would call.
+func (pw *Wrapper) VerifHealth(up bool) {
+	if up {
+		pw.statusNormalCallback()
+	} else {
+		pw.statusFailedCallback()
+	}
+}
+
+// VerifHasMonitor reports whether NewWrapper created a health monitor.
+func (pw *Wrapper) VerifHasMonitor() bool { return pw.monitor != nil }
